@@ -507,6 +507,38 @@ func sliceFieldOf(v ssa.Value, depth int) (string, bool) {
 	return "", false
 }
 
+// sentValues: the value and, for a struct built in place (or by a module helper that returns it), the values stored
+// into its fields; a call result is followed into the helper's returns (two levels).
+func sentValues(c *Ctx, root ssa.Value, depth int) []ssa.Value {
+	vals := []ssa.Value{root}
+	switch x := root.(type) {
+	case *ssa.Alloc:
+		for _, ref := range *x.Referrers() {
+			if fa, ok := ref.(*ssa.FieldAddr); ok && fa.X == ssa.Value(x) {
+				for _, r2 := range *fa.Referrers() {
+					if st, ok := r2.(*ssa.Store); ok && st.Addr == ssa.Value(fa) {
+						vals = append(vals, st.Val)
+						if depth < 2 {
+							if cl, ok := st.Val.(*ssa.Call); ok {
+								vals = append(vals, sentValues(c, cl, depth+1)...)
+							}
+						}
+					}
+				}
+			}
+		}
+	case *ssa.Call:
+		if g := core.StaticCallee(x); g != nil && len(g.Blocks) > 0 && c.P.InModule(g) && depth < 2 {
+			for _, ret := range core.Returns(g) {
+				for _, res := range ret.Results {
+					vals = append(vals, sentValues(c, core.Strip(res), depth+1)...)
+				}
+			}
+		}
+	}
+	return vals
+}
+
 func (c *Ctx) c19HandedOver() {
 	r := c.R
 	r.Rule("R19.8", "a transaction set sent over a channel is not reused by the sender: when the value sent carries a slice-typed field of the sender itself (no copy), no store anywhere in the package reslices that field onto its own backing array (f = f[:k]); the field is replaced by a new slice instead. Reusing the array lets the transactions appended next overwrite the set the receiver is still reading: the batch the leader orders then holds duplicates and misses the transactions the client was told were accepted.")
@@ -552,20 +584,7 @@ func (c *Ctx) c19HandedOver() {
 				if !ok {
 					continue
 				}
-				var vals []ssa.Value
-				root := core.Strip(sd.X)
-				vals = append(vals, root)
-				if a, ok := root.(*ssa.Alloc); ok {
-					for _, bb := range fn.Blocks {
-						for _, in2 := range bb.Instrs {
-							if st, ok := in2.(*ssa.Store); ok {
-								if fa, ok := st.Addr.(*ssa.FieldAddr); ok && fa.X == ssa.Value(a) {
-									vals = append(vals, st.Val)
-								}
-							}
-						}
-					}
-				}
+				vals := sentValues(c, core.Strip(sd.X), 0)
 				carries, bad := false, ""
 				for _, v := range vals {
 					if _, isSlice := v.Type().Underlying().(*types.Slice); isSlice {
@@ -610,32 +629,53 @@ func (c *Ctx) c20SeqBase() {
 			}
 			n++
 			k++
-			a := core.Strip(core.Arg(call, 0))
-			ok := false
-			if _, f, _, isF := core.FieldOf(a); isF && f == "lastExec" {
-				ok = true
-			}
-			if !ok {
-				top := fn
+			var okArg func(in *ssa.Function, raw ssa.Value, depth int) bool
+			okArg = func(in *ssa.Function, raw ssa.Value, depth int) bool {
+				a := core.Strip(raw)
+				if _, f, _, isF := core.FieldOf(a); isF && f == "lastExec" {
+					return true
+				}
+				top := in
+				for top.Parent() != nil {
+					top = top.Parent()
+				}
 				for _, f2 := range core.WithClosures(top) {
 					for _, c2 := range core.Calls(f2) {
 						if g := core.StaticCallee(c2); g != nil && g.Name() == "setLastExec" && len(c2.Common().Args) > 0 {
-							if v := c2.Common().Args[len(c2.Common().Args)-1]; core.Strip(v) == a || sameCount(v, core.Arg(call, 0), 0) {
-								ok = true
+							if v := c2.Common().Args[len(c2.Common().Args)-1]; core.Strip(v) == a || sameCount(v, raw, 0) {
+								return true
 							}
 						}
 					}
 					for _, b := range f2.Blocks {
-						for _, in := range b.Instrs {
-							if st, isSt := in.(*ssa.Store); isSt {
-								if _, f, _, isF := core.FieldOf(st.Addr); isF && f == "lastExec" && (core.Strip(st.Val) == a || sameCount(st.Val, core.Arg(call, 0), 0)) {
-									ok = true
+						for _, x := range b.Instrs {
+							if st, isSt := x.(*ssa.Store); isSt {
+								if _, f, _, isF := core.FieldOf(st.Addr); isF && f == "lastExec" && (core.Strip(st.Val) == a || sameCount(st.Val, raw, 0)) {
+									return true
 								}
 							}
 						}
 					}
 				}
+				// the call sits in a local closure that receives the number: judged at the closure's call sites
+				if p, isP := a.(*ssa.Parameter); isP && in.Parent() != nil && depth < 2 {
+					pi := paramIndex(in, p)
+					nSites, all := 0, true
+					for _, f2 := range core.WithClosures(top) {
+						for _, c2 := range core.Calls(f2) {
+							if core.StaticCallee(c2) == in && pi >= 0 && pi < len(c2.Common().Args) {
+								nSites++
+								if !okArg(f2, c2.Common().Args[pi], depth+1) {
+									all = false
+								}
+							}
+						}
+					}
+					return nSites > 0 && all
+				}
+				return false
 			}
+			ok := okArg(fn, core.Arg(call, 0), 0)
 			r.Check(ok, "R20.11", shortFn(fn)+": SetBatchSeqNo #"+strconv.Itoa(k), c.P.Pos(call.Pos()), "the argument is lastExec / the height recorded as lastExec",
 				"the batch sequence base is computed ("+describe(core.Arg(call, 0))+") instead of being the executed height: the node's next batch gets a height other than lastExec+1 and is ignored by every replica (\"expects to execute seq=..\"): after a leader change with entries in flight the cluster stops producing blocks")
 		}
@@ -1362,4 +1402,300 @@ func (c *Ctx) c17OccupancySeesRoles() {
 	r.Check(bad == "" && len(sites(fn, isRole)) > 0, "R17.17", "checkOccupiedAccount: a free answer has seen the role record", c.P.Pos(fn.Pos()), "every return that may answer 'free' lies behind GetObject(RoleKey(addr), ..)",
 		bad+" (role-record reads: "+strconv.Itoa(len(sites(fn, isRole)))+"): an address that holds a role without an occupy marker - every genesis governance admin - passes as free, is accepted in a stranger's RegisterAppchain admin list and loses its governance role when that registration is approved")
 	r.Floor("R17.17", "occupy-marker reads in checkOccupiedAccount", n, 1)
+}
+
+// ---------------------------------------------------------------------------------------------------------------------
+// R12.10 / R12.11: a rollback to any height of the window - the head included - ends with the caches purged and the root
+// re-anchored; a rollback that cannot be completed is refused before anything is modified.
+func (c *Ctx) c12HeadAndRefusal() {
+	r := c.R
+	r.Rule("R12.10", "a rollback to any height of the window, the head included, ends with the uncommitted state gone: every return of RollbackState that reports success lies behind the purge of the in-block account map and the account cache and behind a store of prevJnlHash. A rollback to the head has nothing to revert in the store, but a block that was executed (and flushed) without being committed must not stay readable, and the next block must chain on the committed root.")
+	r.Rule("R12.11", "a rollback that cannot be completed is refused before anything is modified: in RollbackState a loop that tests the presence of the journals of the range (ldb.Has on a journal key) precedes the cache purge and every batch operation on every path. Noticing the missing journal only when the loop reaches it leaves the store and the persisted max marker at an intermediate height while maxJnlHeight and prevJnlHash stay at the head.")
+	rs := c.fn("R12.10", "internal/ledger.(*SimpleLedger).RollbackState")
+	if rs == nil {
+		return
+	}
+	isPurge := c.throughHelpers(func(in ssa.Instruction) bool {
+		call, ok := in.(ssa.CallInstruction)
+		if !ok {
+			return false
+		}
+		n := core.CalleeName(call)
+		return strings.HasSuffix(n, "AccountCache).clear") || strings.HasSuffix(n, "SimpleLedger).Clear")
+	})
+	isAnchor := storesToField("SimpleLedger", "prevJnlHash")
+	n := 0
+	for _, ret := range core.Returns(rs) {
+		if len(ret.Results) != 1 {
+			continue
+		}
+		success := false
+		for _, o := range core.RetOrigins(ret.Results[0]) {
+			if core.IsNilConst(o.V) {
+				success = true
+			}
+		}
+		if !success {
+			continue
+		}
+		n++
+		noPurge := core.Reach([]core.Point{core.EntryOf(rs)}, isPurge, nil).Has(ret)
+		noAnchor := core.Reach([]core.Point{core.EntryOf(rs)}, isAnchor, nil).Has(ret)
+		r.Check(!noPurge && !noAnchor, "R12.10", "RollbackState: success #"+strconv.Itoa(n)+" behind purge and re-anchoring", c.P.Pos(ret.Pos()), "every path to the successful return purges the caches and stores prevJnlHash",
+			"RollbackState can report success without having purged the caches / re-anchored the root (purge skipped: "+strconv.FormatBool(noPurge)+", root not stored: "+strconv.FormatBool(noAnchor)+"): after Rollback(head) a block that was executed and flushed but never committed is still read back (balance, nonce, code, keys) and the next block chains on the aborted root - re-executing the real block gives another block hash")
+	}
+	r.Floor("R12.10", "successful returns of RollbackState", n, 1)
+	// R12.11
+	isPresence := func(in ssa.Instruction) bool {
+		call, ok := in.(ssa.CallInstruction)
+		if !ok || !call.Common().IsInvoke() || call.Common().Method.Name() != "Has" || !core.InLoop(call) {
+			return false
+		}
+		return len(call.Common().Args) > 0 && strings.HasPrefix(storageKind(call.Common().Args[0]), "journal")
+	}
+	isPresenceDeep := isPresence
+	isMutation := func(in ssa.Instruction) bool {
+		if isPurge(in) {
+			return true
+		}
+		call, ok := in.(ssa.CallInstruction)
+		return ok && call.Common().IsInvoke() && (call.Common().Method.Name() == "NewBatch" || call.Common().Method.Name() == "Commit")
+	}
+	nm := 0
+	bad := ""
+	// the presence loop (it may run zero times: an empty range needs no journal): its header dominates every mutation
+	var headers []*ssa.BasicBlock
+	for _, b := range rs.Blocks {
+		for _, in := range b.Instrs {
+			if isPresenceDeep(in) {
+				if h, _ := loopAround(in.Block()); h != nil {
+					headers = append(headers, h)
+				}
+			}
+		}
+	}
+	for _, b := range rs.Blocks {
+		for _, in := range b.Instrs {
+			if isMutation(in) {
+				nm++
+				dominated := false
+				for _, h := range headers {
+					if h != in.Block() && h.Dominates(in.Block()) {
+						// and the mutation is not inside the presence loop itself
+						if _, L := loopAround(h); L == nil || !L[in.Block()] {
+							dominated = true
+						}
+					}
+				}
+				if !dominated {
+					bad = "the mutation at " + c.P.Pos(in.Pos()) + " is not preceded by a loop that tests the presence of the journals"
+				}
+			}
+		}
+	}
+	r.Check(bad == "", "R12.11", "RollbackState: journals of the range checked before the first mutation", c.P.Pos(rs.Pos()), "a loop of ldb.Has(journal key) precedes the purge and every batch",
+		bad+": a journal missing inside the range is noticed only after the heights above it were reverted and committed - the error is returned with the store at an intermediate height (journals above deleted, max marker lowered) while maxJnlHeight and prevJnlHash still describe the head")
+	r.Floor("R12.11", "mutations in RollbackState (purge, batches)", nm, 3)
+}
+
+// ---------------------------------------------------------------------------------------------------------------------
+// R06.16 / R06.17: the expiry of a height is complete.
+func (c *Ctx) c06ExpiryComplete() {
+	r := c.R
+	r.Rule("R06.16", "a transaction id is not taken apart at '-': appchain and service ids are free text and may contain the character, so in the executor's expiry functions (getTimeoutIBTPsMap, addTxIdToSrcTimeoutIBTPsMap and helpers) no strings.Split / SplitN with the separator \"-\" is applied to an id. With 'chain-0' the parts are malformed, the map cannot be built and the block announces no timeout at all.")
+	r.Rule("R06.17", "one unreadable element does not stop the expiry of the height: the loops of setTimeoutRollback and getTimeoutIBTPsMap over the timeout list of the height contain no return - an element that cannot be handled is skipped and reported after the loop. No later block looks at the list of that height again: whatever is listed behind the element would stay BEGIN past its deadline, unannounced, with a late success receipt still accepted.")
+	n16, n17 := 0, 0
+	for _, spec := range []string{"setTimeoutRollback", "getTimeoutIBTPsMap"} {
+		fn := c.fn("R06.17", execPrefix+spec)
+		if fn == nil {
+			continue
+		}
+		for _, rf := range c.regionOf(fn, 2) {
+			for _, call := range core.Calls(rf.fn) {
+				nm := core.CalleeName(call)
+				if nm != "strings.Split" && nm != "strings.SplitN" {
+					continue
+				}
+				sep, ok := core.ConstString(call.Common().Args[1])
+				if !ok {
+					continue
+				}
+				n16++
+				r.Check(sep != "-", "R06.16", shortFn(rf.fn)+": split #"+strconv.Itoa(n16), c.P.Pos(call.Pos()), "separator "+strconv.Quote(sep),
+					"a transaction id is split at '-': an appchain or service id containing '-' yields malformed parts, getTimeoutIBTPsMap fails and no timeout of the height is announced (empty TimeoutCounter, zero TimeoutRoot) although the records moved to BEGIN_ROLLBACK")
+			}
+		}
+		// loops over the timeout list: no return inside
+		var listVals []ssa.Value
+		for _, call := range core.Calls(fn) {
+			if cv, ok := call.(*ssa.Call); ok && core.CalleeObj(call) != nil && core.CalleeObj(call).Name() == "getTimeoutList" {
+				listVals = append(listVals, cv)
+			}
+		}
+		for _, ret := range core.Returns(fn) {
+			if !core.InLoop(ret) {
+				// a return is never on a cycle; test instead whether it is reachable from inside a loop body without leaving through the loop's exit
+			}
+		}
+		// a return that is dominated by a loop header which ranges over the list and lies inside that loop's body
+		for _, b := range fn.Blocks {
+			for _, in := range b.Instrs {
+				ia, ok := in.(*ssa.IndexAddr)
+				if !ok {
+					continue
+				}
+				fromList := false
+				for _, lv := range listVals {
+					if core.Strip(ia.X) == lv || ia.X == lv {
+						fromList = true
+					}
+				}
+				if !fromList {
+					continue
+				}
+				h, L := loopAround(ia.Block())
+				if h == nil {
+					continue
+				}
+				n17++
+				bad := ""
+				for _, ret := range core.Returns(fn) {
+					// inside the loop: the return's block is reachable from the body without passing the header again and
+					// is dominated by the element access
+					rb := ret.Block()
+					if ia.Block().Dominates(rb) && rb != h {
+						// leaves through the loop exit? the exit edge goes from the header; a block dominated by the body is inside
+						_ = L
+						bad = "return at " + c.P.Pos(ret.Pos()) + " inside the loop over the timeout list"
+					}
+				}
+				r.Check(bad == "", "R06.17", shortFn(fn)+": loop over the timeout list runs to its end", c.P.Pos(ia.Pos()), "no return inside the loop",
+					bad+": the ids listed behind an element that cannot be handled are never moved to BEGIN_ROLLBACK / never announced, and no later block revisits the list of this height")
+			}
+		}
+	}
+	r.Floor("R06.16", "splits in the expiry functions", n16, 1)
+	r.Floor("R06.17", "loops over the timeout list", n17, 2)
+}
+
+// ---------------------------------------------------------------------------------------------------------------------
+// R15.10: the electorate update concludes a proposal under the conditions of the voting path.
+// R15.11: the tally counts the electors whose ballots it counts (known finding).
+func (c *Ctx) c15ElectorateUpdate() {
+	r := c.R
+	r.Rule("R15.10", "an electorate change concludes a proposal only under the conditions of the voting path: in Governance.UpdateAvailableElectorateNum the conclusion (handleResult, the APPROVED / REJECTED status change) is preceded by a condition that reads IsSuperAdminVoted (special proposals wait for the super admin) and one that compares the status with PAUSED (a paused proposal's object belongs to the proposal that paused it). Without them freezing one elector approves a special proposal the super admin never voted on, or concludes a paused proposal under the feet of the one that locked it.")
+	fn := c.fn("R15.10", "internal/executor/contracts.(*Governance).UpdateAvailableElectorateNum")
+	if fn != nil {
+		isConclude := c.throughHelpers(func(in ssa.Instruction) bool {
+			call, ok := in.(ssa.CallInstruction)
+			return ok && core.CalleeObj(call) != nil && core.CalleeObj(call).Name() == "handleResult"
+		})
+		n := 0
+		for _, in := range sites(fn, isConclude) {
+			n++
+			superSeen, pausedSeen := false, false
+			for _, b := range fn.Blocks {
+				ifi := core.IfOf(b)
+				if ifi == nil || !blockReach(b, in.Block()) || b == in.Block() {
+					continue
+				}
+				conds := []ssa.Value{ifi.Cond}
+				if _, parts, ok := core.LogicalParts(ifi); ok {
+					for _, p := range parts {
+						conds = append(conds, p.V)
+					}
+				}
+				for _, cv := range conds {
+					if core.Mentions(cv, fieldNamed("IsSuperAdminVoted")) {
+						superSeen = true
+					}
+					if core.Mentions(cv, func(v ssa.Value) bool {
+						bo, ok := v.(*ssa.BinOp)
+						if !ok || (bo.Op != token.EQL && bo.Op != token.NEQ) {
+							return false
+						}
+						for _, side := range []ssa.Value{bo.X, bo.Y} {
+							if s, ok := core.ConstString(side); ok && s == "pause" {
+								return true
+							}
+						}
+						return false
+					}) {
+						pausedSeen = true
+					}
+				}
+			}
+			r.Check(superSeen && pausedSeen, "R15.10", "UpdateAvailableElectorateNum: conclusion #"+strconv.Itoa(n)+" under the voting path's conditions", c.P.Pos(in.Pos()), "decided after tests of IsSuperAdminVoted and of the PAUSED status",
+				"the electorate update concludes the proposal without the conditions of countVote (super admin voted: "+strconv.FormatBool(superSeen)+", not paused: "+strconv.FormatBool(pausedSeen)+"): freezing an elector approves a special proposal (e.g. a new governance admin) the super admin never voted on; an unrelated freeze concludes a paused proposal whose handler changes the object held by the proposal that paused it")
+		}
+		r.Floor("R15.10", "conclusions in UpdateAvailableElectorateNum", n, 1)
+	}
+	r.Rule("R15.11", "the tally counts the electors whose ballots it counts: the number of available electors handed to repo.MakeStrategyDecision by the governance contract's tally sites is not the stored AvailableElectorateNum as it is - that number is decremented for electors who voted and became unavailable, while their ballots stay in ApproveNum / AgainstNum, so 'approvals still possible' is under-counted and a proposal is rejected although approval is reachable (known finding).")
+	n := 0
+	for _, f := range c.P.ModuleFuncs(true) {
+		if !strings.HasSuffix(f.Package().Pkg.Path(), "internal/executor/contracts") {
+			continue
+		}
+		top := f
+		for top.Parent() != nil {
+			top = top.Parent()
+		}
+		if top.Signature.Recv() == nil || !strings.HasSuffix(top.Signature.Recv().Type().String(), "contracts.Governance") {
+			continue
+		}
+		for _, call := range core.Calls(f) {
+			if !strings.HasSuffix(core.CalleeName(call), "repo.MakeStrategyDecision") || len(call.Common().Args) < 5 {
+				continue
+			}
+			a := call.Common().Args[4]
+			_, fld, _, ok := core.FieldOf(core.Strip(a))
+			if !ok || fld != "AvailableElectorateNum" {
+				continue
+			}
+			n++
+			r.Check(false, "R15.11", shortFn(top)+": tally on the stored AvailableElectorateNum", c.P.Pos(call.Pos()), "",
+				"MakeStrategyDecision receives p.AvailableElectorateNum as it is: electors who voted and were then frozen / logged out are subtracted from it while their ballots stay counted, so availableNum - reject under-counts the approvals still possible - with 4 admins and a > 0.5*t, B rejects and is frozen: the proposal is rejected (\"not enough valid electorate\", approve=0 against=1 available=3) although three electors have not voted")
+		}
+	}
+	r.Floor("R15.11", "tally sites fed with the stored AvailableElectorateNum", n, 0)
+}
+
+// ---------------------------------------------------------------------------------------------------------------------
+// R16.12 (known finding): an approved update does not lift a freeze.
+func (c *Ctx) c16UpdateKeepsFreeze() {
+	r := c.R
+	r.Rule("R16.12", "an approved update changes the information of an appchain, not its freeze: where AppchainManager concludes an approved update (manageUpdateApprove and helpers) the cross-invoke UnPauseChainService lies behind a test of the status the appchain had before the update (lastStatus against frozen). The FSM of bitxhub-core maps approve from updating to available whatever the last status was; resuming the services unconditionally lets the chain's own admin lift, with an ordinary update proposal, a freeze that only a special proposal may lift (known finding).")
+	mu := c.fn("R16.12", "internal/executor/contracts.(*AppchainManager).manageUpdateApprove")
+	if mu == nil {
+		return
+	}
+	n := 0
+	for _, call := range core.Calls(mu) {
+		isUnpause := false
+		for _, a := range call.Common().Args {
+			if s, ok := core.ConstString(a); ok && s == "UnPauseChainService" {
+				isUnpause = true
+			}
+		}
+		if !isUnpause {
+			continue
+		}
+		n++
+		guarded := false
+		for _, b := range mu.Blocks {
+			ifi := core.IfOf(b)
+			if ifi == nil || !b.Dominates(call.Block()) || b == call.Block() {
+				continue
+			}
+			if core.Mentions(ifi.Cond, func(v ssa.Value) bool {
+				p, ok := v.(*ssa.Parameter)
+				return ok && p.Parent() == mu && p != mu.Params[0] && (p.Type().String() == "bool" || strings.Contains(strings.ToLower(p.Name()), "status"))
+			}) {
+				guarded = true
+			}
+		}
+		r.Check(guarded, "R16.12", "manageUpdateApprove: services resumed only when the chain was not frozen before", c.P.Pos(call.Pos()), "UnPauseChainService behind a test of what the caller knows about the last status",
+			"an approved UpdateAppchain resumes the chain's services and ends available whatever the status before the update was: FreezeAppchain(chainB) approved (services paused, requests begin-failed), the chain's own admin submits UpdateAppchain with a new name, approved by ordinary votes -> chainB available, services available, requests accepted; the same shape exists for UpdateService from frozen")
+	}
+	r.Floor("R16.12", "UnPauseChainService in manageUpdateApprove", n, 1)
 }
